@@ -10,12 +10,62 @@ verus! {
 //@struct file=src/solver/core/kktsolvers/direct/quasidef/datamaps.rs name=LDLDataMap keep=P,A,diagP,diag_full
 //@struct file=src/solver/implementations/default/settings.rs name=DefaultSettings rules=R1f
 //@type file=src/solver/core/settings.rs name=CoreSettings
-// stand-in for Box<dyn DirectLDLSolver<T> + Send + Sync> (trait object): the engine keeps its own copy of the values;
-// nothing is assumed about it beyond returning
-pub struct BoxedDirectLDLSolver<T> { pub _p: Option<T> }
+// stand-in for Box<dyn DirectLDLSolver<T> + Send + Sync> (trait object): the engine keeps its own copy of the values.
+// Ghost view `copy`: that copy, indexed like KKT.nzval.  The contracts of update_values / scale_values on the trait object
+// are ASSUMED here; for the QDLDL engine they are discharged in unit qdldl_kernels (QDLDLFactorisation::update_values /
+// scale_values write slot AtoPAPt[idx] of the permuted copy).  refactor is assumed to return and to leave the copy alone.
+pub struct BoxedDirectLDLSolver<T> { pub _p: Option<T>, pub copy: Ghost<Seq<T>> }
+pub open spec fn upd_n(index: Seq<usize>, values: Seq<F>) -> int { if index.len() < values.len() { index.len() as int } else { values.len() as int } }
+// `after` is `before` with values[k] written to slot index[k], k = 0..n, in order
+pub open spec fn is_update(before: Seq<F>, after: Seq<F>, index: Seq<usize>, values: Seq<F>) -> bool {
+    let n = upd_n(index, values);
+    &&& after.len() == before.len()
+    &&& forall|k: int| last_writer(index, n, k) ==> after[#[trigger] index[k] as int] == values[k]
+    &&& forall|s: int| 0 <= s < before.len() && (forall|k: int| 0 <= k < n ==> index[k] != s) ==> #[trigger] after[s] == before[s]
+}
+pub open spec fn is_scaling(before: Seq<F>, after: Seq<F>, index: Seq<usize>, scale: F) -> bool {
+    &&& after.len() == before.len()
+    &&& forall|k: int| 0 <= k < index.len() ==> after[#[trigger] index[k] as int] == f_mul(before[index[k] as int], scale)
+    &&& forall|s: int| 0 <= s < before.len() && (forall|k: int| 0 <= k < index.len() ==> index[k] != s) ==> #[trigger] after[s] == before[s]
+}
+pub open spec fn in_idx(index: Seq<usize>, s: int) -> bool { exists|k: int| 0 <= k < index.len() && index[k] == s }
+// C08 / C11 invariant between the two copies: they agree everywhere except (possibly) on the diagonal slots, where the
+// engine's copy carries the static regularisation
+pub open spec fn synced_off(copy: Seq<F>, nz: Seq<F>, diag: Seq<usize>) -> bool {
+    copy.len() == nz.len() && forall|s: int| 0 <= s < nz.len() && !in_idx(diag, s) ==> #[trigger] copy[s] == nz[s]
+}
 impl BoxedDirectLDLSolver<F> {
-    #[verifier::external_body] pub fn update_values(&mut self, index: &[usize], values: &[F]) { unimplemented!() }
-    #[verifier::external_body] pub fn refactor(&mut self, kkt: &CscMatrix<F>) -> bool { unimplemented!() }
+    #[verifier::external_body] pub fn update_values(&mut self, index: &[usize], values: &[F])
+        requires forall|k: int| 0 <= k < index@.len() ==> index@[k] < old(self).copy@.len(),
+        ensures is_update(old(self).copy@, final(self).copy@, index@, values@),
+    { unimplemented!() }
+    #[verifier::external_body] pub fn scale_values(&mut self, index: &[usize], scale: F)
+        requires forall|k: int| 0 <= k < index@.len() ==> index@[k] < old(self).copy@.len(),
+            forall|a: int, b: int| 0 <= a < b < index@.len() ==> index@[a] != index@[b],
+        ensures is_scaling(old(self).copy@, final(self).copy@, index@, scale),
+    { unimplemented!() }
+    #[verifier::external_body] pub fn refactor(&mut self, kkt: &CscMatrix<F>) -> bool
+        ensures final(self).copy@ == old(self).copy@,
+    { unimplemented!() }
+}
+// two sequences that agree on a slot still agree on it after the same update has been applied to both
+pub proof fn lemma_same_update(c0: Seq<F>, c1: Seq<F>, z0: Seq<F>, z1: Seq<F>, index: Seq<usize>, values: Seq<F>, s: int)
+    requires is_update(c0, c1, index, values), is_update(z0, z1, index, values), c0.len() == z0.len(), 0 <= s < z0.len(),
+        forall|k: int| 0 <= k < index.len() ==> index[k] < z0.len(),
+    ensures (c0[s] == z0[s] || in_idx(index.take(upd_n(index, values)), s)) ==> c1[s] == z1[s],
+{
+    let n = upd_n(index, values);
+    if exists|k: int| 0 <= k < n && index[k] == s {
+        let k = choose|k: int| 0 <= k < n && index[k] == s;
+        lemma_last_writer_exists(index, n, k);
+        let k2 = choose|k2: int| last_writer(index, n, k2) && index[k2] == index[k];
+        assert(c1[index[k2] as int] == values[k2]);
+        assert(z1[index[k2] as int] == values[k2]);
+    } else {
+        assert(!in_idx(index.take(n), s)) by {
+            if in_idx(index.take(n), s) { let k = choose|k: int| 0 <= k < index.take(n).len() && index.take(n)[k] == s; assert(index[k] == s); }
+        }
+    }
 }
 //@struct file=src/solver/core/kktsolvers/direct/quasidef/directldlkktsolver.rs name=DirectLDLKKTSolver keep=m,n,p,work1,work2,map,dsigns,KKT,ldlsolver,diagonal_regularizer
 
@@ -25,12 +75,23 @@ impl BoxedDirectLDLSolver<F> {
 //@end
 //@fn file=src/solver/core/kktsolvers/direct/quasidef/directldlkktsolver.rs name=_update_values rules=R1
 //@contract
-    requires forall|k: int| 0 <= k < index@.len() ==> index@[k] < old(KKT).nzval@.len(),
+    requires forall|k: int| 0 <= k < index@.len() ==> index@[k] < old(KKT).nzval@.len(), old(ldlsolver).copy@.len() == old(KKT).nzval@.len(),
     ensures
         final(KKT).same_pattern(old(KKT)),
+        // C08: the same update reaches the LDL engine's own copy
+        is_update(old(ldlsolver).copy@, final(ldlsolver).copy@, index@, values@), is_update(old(KKT).nzval@, final(KKT).nzval@, index@, values@),
         ({ let n = if index@.len() < values@.len() { index@.len() as int } else { values@.len() as int };
            &&& forall|k: int| last_writer(index@, n, k) ==> final(KKT).nzval@[#[trigger] index@[k] as int] == values@[k]
            &&& forall|s: int| 0 <= s < old(KKT).nzval@.len() && (forall|k: int| 0 <= k < n ==> index@[k] != s) ==> #[trigger] final(KKT).nzval@[s] == old(KKT).nzval@[s] }),
+//@end
+
+//@fn file=src/solver/core/kktsolvers/direct/quasidef/directldlkktsolver.rs name=_scale_values rules=R1
+//@contract
+    requires forall|k: int| 0 <= k < index@.len() ==> index@[k] < old(KKT).nzval@.len(), old(ldlsolver).copy@.len() == old(KKT).nzval@.len(),
+        forall|a: int, b: int| 0 <= a < b < index@.len() ==> index@[a] != index@[b],
+    ensures
+        final(KKT).same_pattern(old(KKT)),
+        is_scaling(old(ldlsolver).copy@, final(ldlsolver).copy@, index@, scale), is_scaling(old(KKT).nzval@, final(KKT).nzval@, index@, scale),
 //@end
 
 // every slot that is written at all has a last writer
@@ -48,13 +109,58 @@ pub proof fn lemma_last_writer_exists(index: Seq<usize>, n: int, k: int)
 }
 
 impl DirectLDLKKTSolver<F> {
+//@fn file=src/solver/core/kktsolvers/direct/quasidef/directldlkktsolver.rs in="KKTSolver<T> for DirectLDLKKTSolver<T>" name=update_P rules=R1
+//@contract
+    requires
+        forall|k: int| 0 <= k < old(self).map.P@.len() ==> old(self).map.P@[k] < old(self).KKT.nzval@.len(),
+        old(self).ldlsolver.copy@.len() == old(self).KKT.nzval@.len(),
+    ensures
+        final(self).map == old(self).map, final(self).KKT.same_pattern(&old(self).KKT),
+        // C08 / C11: the new values of P reach their recorded KKT slots, in the KKT matrix and in the engine's copy alike
+        is_update(old(self).KKT.nzval@, final(self).KKT.nzval@, old(self).map.P@, P.nzval@),
+        is_update(old(self).ldlsolver.copy@, final(self).ldlsolver.copy@, old(self).map.P@, P.nzval@),
+        synced_off(old(self).ldlsolver.copy@, old(self).KKT.nzval@, old(self).map.diag_full@)
+            ==> synced_off(final(self).ldlsolver.copy@, final(self).KKT.nzval@, old(self).map.diag_full@),
+//@post
+        proof {
+            if synced_off(old(self).ldlsolver.copy@, old(self).KKT.nzval@, old(self).map.diag_full@) {
+                assert forall|s: int| 0 <= s < self.KKT.nzval@.len() && !in_idx(old(self).map.diag_full@, s) implies #[trigger] self.ldlsolver.copy@[s] == self.KKT.nzval@[s] by {
+                    lemma_same_update(old(self).ldlsolver.copy@, self.ldlsolver.copy@, old(self).KKT.nzval@, self.KKT.nzval@, old(self).map.P@, P.nzval@, s);
+                }
+            }
+        }
+//@end
+//@fn file=src/solver/core/kktsolvers/direct/quasidef/directldlkktsolver.rs in="KKTSolver<T> for DirectLDLKKTSolver<T>" name=update_A rules=R1
+//@contract
+    requires
+        forall|k: int| 0 <= k < old(self).map.A@.len() ==> old(self).map.A@[k] < old(self).KKT.nzval@.len(),
+        old(self).ldlsolver.copy@.len() == old(self).KKT.nzval@.len(),
+    ensures
+        final(self).map == old(self).map, final(self).KKT.same_pattern(&old(self).KKT),
+        is_update(old(self).KKT.nzval@, final(self).KKT.nzval@, old(self).map.A@, A.nzval@),
+        is_update(old(self).ldlsolver.copy@, final(self).ldlsolver.copy@, old(self).map.A@, A.nzval@),
+        synced_off(old(self).ldlsolver.copy@, old(self).KKT.nzval@, old(self).map.diag_full@)
+            ==> synced_off(final(self).ldlsolver.copy@, final(self).KKT.nzval@, old(self).map.diag_full@),
+//@post
+        proof {
+            if synced_off(old(self).ldlsolver.copy@, old(self).KKT.nzval@, old(self).map.diag_full@) {
+                assert forall|s: int| 0 <= s < self.KKT.nzval@.len() && !in_idx(old(self).map.diag_full@, s) implies #[trigger] self.ldlsolver.copy@[s] == self.KKT.nzval@[s] by {
+                    lemma_same_update(old(self).ldlsolver.copy@, self.ldlsolver.copy@, old(self).KKT.nzval@, self.KKT.nzval@, old(self).map.A@, A.nzval@, s);
+                }
+            }
+        }
+//@end
 //@fn file=src/solver/core/kktsolvers/direct/quasidef/directldlkktsolver.rs in="impl<T> DirectLDLKKTSolver<T>" name=regularize_and_refactor rules=R1,R17,zipidx:1=mi;2=mi ret=r
 //@contract
     requires
         // the recorded diagonal map points into the KKT matrix and the work vectors cover it
         forall|k: int| 0 <= k < old(self).map.diag_full@.len() ==> old(self).map.diag_full@[k] < old(self).KKT.nzval@.len(),
         old(self).work1@.len() == old(self).map.diag_full@.len(), old(self).work2@.len() == old(self).map.diag_full@.len(),
+        old(self).ldlsolver.copy@.len() == old(self).KKT.nzval@.len(),
     ensures
+        // the engine's copy is only ever touched on the diagonal slots (where it receives the regularised values)
+        final(self).ldlsolver.copy@.len() == old(self).ldlsolver.copy@.len(),
+        forall|s: int| 0 <= s < old(self).ldlsolver.copy@.len() && !in_idx(old(self).map.diag_full@, s) ==> #[trigger] final(self).ldlsolver.copy@[s] == old(self).ldlsolver.copy@[s],
         // C11: whatever the outcome of the factorisation, the KKT matrix kept for iterative refinement is exactly what it was:
         // the statically regularised diagonal lives only inside the LDL engine's copy
         final(self).KKT.same_pattern(&old(self).KKT), final(self).KKT.nzval@ == old(self).KKT.nzval@,
@@ -62,6 +168,7 @@ impl DirectLDLKKTSolver<F> {
 //@pre
         let ghost nz0 = self.KKT.nzval@;
         let ghost idx = self.map.diag_full@;
+        let ghost copy0 = self.ldlsolver.copy@;
 //@loop 1
                 invariant
                     r14_n1 == idx.len(), diag_kkt@.len() == idx.len(), map.diag_full@ == idx, KKT.nzval@ == nz0,
@@ -85,6 +192,11 @@ impl DirectLDLKKTSolver<F> {
             }
 //@before "let is_success = self.ldlsolver.refactor(KKT)"
         proof {
+            assert forall|s: int| 0 <= s < copy0.len() && !in_idx(idx, s) implies #[trigger] self.ldlsolver.copy@[s] == copy0[s] by {
+                if settings.static_regularization_enable {
+                    assert forall|k: int| 0 <= k < upd_n(idx, self.work2@) implies idx[k] != s by { assert(!(0 <= k < idx.len() && idx[k] == s)); }
+                }
+            }
             // the saved diagonal is the original one (or regularisation is off and nothing was touched)
             assert(settings.static_regularization_enable ==> forall|k: int| 0 <= k < idx.len() ==> #[trigger] diag_kkt@[k] == nz0[idx[k] as int]);
         }
